@@ -252,6 +252,15 @@ _PATCH_NOTES = {
     "RYD": "repaired seed: Placement enum with payloads", "RYE": "repaired seed: VersionKey/VersionRow + redundant owned_by filter", "RYE2": "repaired seed: VersionKey/VersionRow",
     "RYF": "repaired seed: Ancestry iterator struct for the snapshot walk", "RYG": "repaired seed: SnapshotAge struct + DaysSince trait", "RYH": "repaired seed: Failure error type implementing ResponseError",
     "RYI": "repaired seed: BodyKind enum, ALL.into_iter().find()", "RYJ": "repaired seed: for_client continuation-passing helper",
+    "RZB": "repaired seed: Session { txn, client } + Change enum + conclude()", "RZC": "repaired seed: creating_client(op) retry helper + register_client",
+    "RZD": "repaired seed: routes from an ApiPath / endpoint() table instead of the route macros", "RZF": "repaired seed: SNAPSHOT_COLS via format! + positional SnapshotCols",
+    "RZG": "repaired seed: ServerConfig::with_* builders + ServerArgs helpers", "RZH": "repaired seed: ParentRequest::run generic retry helper",
+    "QA1": "round 11: from_thresholds generic helper", "QA2": "round 11: one match over client.snapshot", "QA3": "round 11: snapshot_version_is_recent() -> Result<bool>", "QA4": "round 11: accepts_parent_version predicate",
+    "QB1": "round 11: derive Default for Inner", "QB2": "round 11: and_then chain in get_version_by_parent", "QB3": "round 11: client()/client_mut() helpers", "QB4": "round 11: let-else + bail! guard clauses",
+    "QC1": "round 11: SCHEMA_QUERIES const slice", "QC2": "round 11: get_version_impl without client_id parameter", "QC3": "round 11: explicit match in get_snapshot_data", "QC4": "round 11: client_from_row named mapper",
+    "QD1": "round 11: shared read_body helper", "QD2": "round 11: combinator chain in client_id_header", "QD3": "round 11: value-producing retry loop", "QD4": "round 11: let-else / map_err first in GET handlers",
+    "QE1": "round 11: DEFAULT_CACHE_CONTROL / VERSION constants + default_headers()", "QE2": "round 11: remove_one / remove_many", "QE3": "round 11: try_fold over listen addresses", "QE4": "round 11: ServerArgs::server_config()",
+    "QF1": "round 11: one match over client.snapshot", "QF2": "round 11: shared read_body helper", "QF3": "round 11: get_version_impl without client_id parameter", "QF4": "round 11: guard clauses in client_id_header",
     "WD1": "core: junior tidy-up of server.rs", "WD2": "sqlite: junior tidy-up", "WD3": "api: junior tidy-up of handlers", "WD4": "bin: junior tidy-up",
 }
 for _p in sorted(_glob.glob(_os.path.join(_PD, "*.diff"))):
